@@ -120,8 +120,8 @@ type BUp struct {
 	ID      uuid.UUID
 	Session string
 	QoS     message.QoS
-	recv    map[uint32]bool // seqs received (any incarnation)
-	acked   map[uint32]bool
+	recv    map[uint32]map[int]bool // seq -> incarnations on which it was received
+	acked   map[uint32]map[int]bool // seq -> incarnations on which a result for it was sent
 	aliases map[string]uint32 // data id name -> alias granted
 	closed  bool
 }
@@ -666,7 +666,7 @@ func (i *Inc) handle(m message.Message) {
 		b.rec.Log("BRecvPong", "c", i.c, "rid", int(t.RequestID))
 	case *message.UpstreamOpenRequest:
 		b.mu.Lock()
-		u := &BUp{ID: uuid.New(), Session: t.SessionID, QoS: t.QoS, recv: map[uint32]bool{}, acked: map[uint32]bool{}, aliases: map[string]uint32{}}
+		u := &BUp{ID: uuid.New(), Session: t.SessionID, QoS: t.QoS, recv: map[uint32]map[int]bool{}, acked: map[uint32]map[int]bool{}, aliases: map[string]uint32{}}
 		u.Sid = fmt.Sprintf("u%d", len(b.ups)+1)
 		b.ups[u.ID] = u
 		b.upBySid[u.Sid] = u
@@ -725,7 +725,10 @@ func (i *Inc) handle(m message.Message) {
 		sid := "?"
 		if u != nil {
 			sid = u.Sid
-			u.recv[t.StreamChunk.SequenceNumber] = true
+			if u.recv[t.StreamChunk.SequenceNumber] == nil {
+				u.recv[t.StreamChunk.SequenceNumber] = map[int]bool{}
+			}
+			u.recv[t.StreamChunk.SequenceNumber][i.c] = true
 		}
 		auto := b.ackMode == "auto" && !b.silent
 		aliasName := func(a uint32) string {
@@ -917,7 +920,10 @@ func (i *Inc) ack(u *BUp, alias uint32, seqs []uint32, codes []int, aliases map[
 		u.aliases[n] = a
 	}
 	for _, s := range seqs {
-		u.acked[s] = true
+		if u.acked[s] == nil {
+			u.acked[s] = map[int]bool{}
+		}
+		u.acked[s][i.c] = true
 	}
 	b.mu.Unlock()
 	sort.Slice(al, func(x, y int) bool { return al[x][0].(int) < al[y][0].(int) })
@@ -950,20 +956,23 @@ func (b *Broker) Down(sid string) *BDown {
 	return b.dnBySid[sid]
 }
 
-// Received reports whether the broker has received seq of upstream sid.
-func (b *Broker) Received(u *BUp, seq uint32) bool {
+// Received reports whether the broker has received seq of upstream u on incarnation c (0 = any).
+func (b *Broker) Received(u *BUp, seq uint32, c int) bool {
 	b.mu.Lock()
 	defer b.mu.Unlock()
-	return u.recv[seq]
+	if c == 0 {
+		return len(u.recv[seq]) > 0
+	}
+	return u.recv[seq][c]
 }
 
-// Unacked lists received-but-unacked seqs of u in ascending order.
-func (b *Broker) Unacked(u *BUp) []uint32 {
+// Unacked lists the seqs of u received on incarnation c for which no result was sent on c, ascending.
+func (b *Broker) Unacked(u *BUp, c int) []uint32 {
 	b.mu.Lock()
 	defer b.mu.Unlock()
 	out := []uint32{}
-	for s := range u.recv {
-		if !u.acked[s] {
+	for s, on := range u.recv {
+		if on[c] && !u.acked[s][c] {
 			out = append(out, s)
 		}
 	}
